@@ -321,9 +321,15 @@ pub fn run_program(program: &Program, world: &Shared, budget: u64) -> RunResult 
         })));
     }
 
-    let prev = verif_fs::install(Some(Box::new(SimFs {
-        world: world.clone(),
-    })));
+    // `real_fs`: leave the seam empty, so that file operations go to std::fs (fidelity runs)
+    let real_fs = world.borrow().real_fs;
+    let prev = if real_fs {
+        verif_fs::install(None)
+    } else {
+        verif_fs::install(Some(Box::new(SimFs {
+            world: world.clone(),
+        })))
+    };
     let result = catch_unwind(AssertUnwindSafe(|| interpreter.interpret(gen_result)));
     // dropping the interpreter closes the files (handles die with the run)
     let drop_result = catch_unwind(AssertUnwindSafe(move || drop(interpreter)));
